@@ -385,6 +385,85 @@ def dihedral_ok(v, e, min_cos=-0.95):
     return True
 
 
+def self_intersects(v, e):
+    """True if two triangles of the soup meet other than in a common vertex/edge: an edge of one pierces the interior of another, or
+    two coplanar triangles overlap (folded surface). Such a soup is not the boundary of a polyhedron / not an embedded screen; the
+    identities the checks rely on (and geometric point location) do not apply to it."""
+    v = np.asarray(v, dtype=float)
+    E = np.asarray(e, dtype=int)
+    m = len(E)
+    if m < 2:
+        return False
+    P = v[E]  # (m,3,3)
+    n = np.cross(P[:, 1] - P[:, 0], P[:, 2] - P[:, 0])
+    nn = np.linalg.norm(n, axis=1)
+    h = np.sqrt(nn)
+    nu = n / (nn[:, None] + 1e-300)
+    ii, jj = np.triu_indices(m, 1)
+    # bounding-box prefilter
+    lo, hi = P.min(axis=1), P.max(axis=1)
+    tol = 1e-9 * float(np.max(hi - lo) + 1e-300)
+    keep = np.all(lo[ii] <= hi[jj] + tol, axis=1) & np.all(lo[jj] <= hi[ii] + tol, axis=1)
+    ii, jj = ii[keep], jj[keep]
+
+    def strictly_inside(x, T, eps=1e-7):
+        e1, e2 = T[1] - T[0], T[2] - T[0]
+        d = x - T[0]
+        a11, a12, a22 = e1 @ e1, e1 @ e2, e2 @ e2
+        det = a11 * a22 - a12 * a12
+        if det <= 0:
+            return False
+        b1, b2 = d @ e1, d @ e2
+        s_, t_ = (a22 * b1 - a12 * b2) / det, (a11 * b2 - a12 * b1) / det
+        return s_ > eps and t_ > eps and s_ + t_ < 1 - eps
+
+    def seg_cross_2d(p, q, r, s_, ax1, ax2):
+        def c(x):
+            return np.array([x @ ax1, x @ ax2])
+        p, q, r, s_ = c(p), c(q), c(r), c(s_)
+        d1, d2 = q - p, s_ - r
+        den = d1[0] * d2[1] - d1[1] * d2[0]
+        if abs(den) < 1e-14 * (np.linalg.norm(d1) * np.linalg.norm(d2) + 1e-300):
+            return False
+        w = r - p
+        t = (w[0] * d2[1] - w[1] * d2[0]) / den
+        u = (w[0] * d1[1] - w[1] * d1[0]) / den
+        return 1e-7 < t < 1 - 1e-7 and 1e-7 < u < 1 - 1e-7
+
+    for a, b in zip(ii, jj):
+        shared = len(set(E[a].tolist()) & set(E[b].tolist()))
+        if shared == 3:
+            return True
+        coplanar = abs(nu[a] @ nu[b]) > 1 - 1e-10 and abs((P[b][0] - P[a][0]) @ nu[a]) < 1e-9 * max(h[a], h[b])
+        if coplanar:
+            ax1 = P[a][1] - P[a][0]
+            ax1 = ax1 / np.linalg.norm(ax1)
+            ax2 = np.cross(nu[a], ax1)
+            for x in P[a]:
+                if strictly_inside(x, P[b]):
+                    return True
+            for x in P[b]:
+                if strictly_inside(x, P[a]):
+                    return True
+            for k in range(3):
+                for l_ in range(3):
+                    if seg_cross_2d(P[a][k], P[a][(k + 1) % 3], P[b][l_], P[b][(l_ + 1) % 3], ax1, ax2):
+                        return True
+            # centroid of one inside the other (identical-shape overlap with all vertices on the boundary)
+            if strictly_inside(P[a].mean(axis=0), P[b]) or strictly_inside(P[b].mean(axis=0), P[a]):
+                return True
+            continue
+        for (S, T, nT, hT) in ((P[a], P[b], nu[b], h[b]), (P[b], P[a], nu[a], h[a])):
+            for k in range(3):
+                p, q = S[k], S[(k + 1) % 3]
+                dp, dq = (p - T[0]) @ nT, (q - T[0]) @ nT
+                if dp * dq < -(1e-9 * hT) ** 2 and abs(dp) > 1e-9 * hT and abs(dq) > 1e-9 * hT:
+                    x = p + (dp / (dp - dq)) * (q - p)
+                    if strictly_inside(x, T):
+                        return True
+    return False
+
+
 CLASS_BOUNDS = {"regular": (math.radians(28), 2.6), "hard": (math.radians(12), 6.0)}
 
 
@@ -503,6 +582,19 @@ def build(desc):
                 used_amp = amp
                 break
             amp *= 0.5
+    # embeddedness: edge flips / splits plus displacement can fold the surface onto itself (coplanar overlapping or piercing elements);
+    # constructive fallback: drop the displacement, then the edits (the base meshes are embedded)
+    if (desc.get("edits") or used_amp > 0) and not desc.get("_no_embed_check") and self_intersects(v, e):
+        if used_amp > 0 and not self_intersects(v0, e):
+            v, used_amp = v0, 0.0
+        else:
+            d2 = dict(desc)
+            d2["edits"] = [x for x in desc.get("edits", []) if x[0] == "refine"]
+            d2["amp"] = 0.0
+            d2["_no_embed_check"] = True
+            out = build(d2)
+            out["embedded_fallback"] = True
+            return out
     # domain labels are intrinsic to the (displaced) base geometry: assigned before the rigid motion / scaling
     doms = assign_domains(v, e, desc.get("domains"), base_doms)
     an = desc.get("aniso")
